@@ -32,7 +32,8 @@ def main():
         args = args[:i] + args[i + 2:]
     checks_only = '--checks-only' in args
     args = [a for a in args if a != '--checks-only']
-    checks = args or [prop]
+    # (a change may be recorded as caught by another property's check: `regress_check` in its meta.json)
+    checks = args or [meta.get('regress_check', prop)]
     name = '%s_%s' % (prop, os.path.basename(seed))
     res = {'seed': seed, 'property': prop}
     if reuse:
